@@ -8,7 +8,7 @@ import qgen
 import enginecheck as ec
 
 THEOREM = 'C13_cli_success / C13_cli_failure (Props/C13.v) + engine and header models: every entry point yields the model table'
-CELLS = ['a', 'b', 'ab', 'k', 'x1', '12', 'zz', 'A', 'a,b', 'q"r', ' sp ', 'é', '"', ',', 'x y']   # incl. cells the quoted dialect must quote
+CELLS = ['a', 'b', 'ab', 'k', 'x1', '12', 'zz', 'A', 'a,b', 'q"r', ' sp ', 'é', '"', ',', 'x y', '世界', 'ß€']   # incl. cells the quoted dialect must quote
 ENTRY = ['query_table', 'query', 'query_csv', 'cli_file', 'cli_stdio', 'cli_stdio_tsv', 'cli_file_csv', 'pandas', 'sqlite']
 
 
@@ -28,14 +28,34 @@ def gen_case(ctx):
         sp = r.random()
         txt = 'a%d' % (i + 1) if sp < 0.4 else ('a.%s' % hdr[i] if sp < 0.7 else 'a["%s"]' % hdr[i])
         return ('fld', 'a', i), txt, ('(0 0 %d)' % i) if sp < 0.4 else ('(1 0 %s)' % lib.enc(hdr[i]) if sp < 0.7 else '(2 0 %s)' % lib.enc(hdr[i]))
+    def name_of(side, i, names):
+        sp = r.random()
+        return '%s%d' % (side, i + 1) if sp < 0.3 else ('%s.%s' % (side, names[i]) if sp < 0.7 else '%s["%s"]' % (side, names[i]))
+    shape = r.random()
+    if shape < 0.1 and not join:
+        # EXCEPT with columns spelled by name (also over a zero-row table: the names must still resolve)
+        idxs = sorted(set(r.randint(0, na - 1) for _ in range(r.randint(1, 2))))
+        q = 'select * except %s' % ', '.join(name_of('a', i, hdr) for i in idxs)
+        qa = {'kind': ('except', idxs), 'where': None, 'join': None}
+        return {'q': q, 'qa': qa, 'hdr': hdr, 'A': A, 'hdrB': None, 'B': None, 'hq': '(1 (%s) 0)' % ' '.join(map(str, idxs)), 'expect_fail': False}
+    if shape < 0.2 and not join:
+        # UPDATE with the target spelled by name
+        i, j = r.randint(0, na - 1), r.randint(0, na - 1)
+        q = 'update %s = %s + "-"' % (name_of('a', i, hdr), name_of('a', j, hdr))
+        qa = {'kind': ('update', [(i, ('add', ('fld', 'a', j), ('lit', '-')))]), 'where': None, 'join': None}
+        return {'q': q, 'qa': qa, 'hdr': hdr, 'A': A, 'hdrB': None, 'B': None, 'hq': '(2)', 'expect_fail': False}
     items, texts, hitems = [], [], []
     for _ in range(r.randint(1, 3)):
         x = r.random()
         if x < 0.55:
             e, t, h = fld()
-        elif x < 0.7:
+        elif x < 0.66:
             e1, t1, _ = fld()
             e, t, h = ('add', e1, ('lit', '-')), '%s + "-"' % t1, '(7)'
+        elif x < 0.72:
+            # looks INSIDE the string: a front-end that decodes the bytes differently (e.g. another default encoding) shows here
+            e1, t1, _ = fld()
+            e, t, h = ('len', e1), 'len(%s)' % t1, '(7)'
         elif x < 0.8 and not join:
             items.append(('star',)); texts.append('*'); hitems.append('(4)')
             continue
@@ -63,7 +83,7 @@ def gen_case(ctx):
     if join:
         k = r.randint(0, na - 1)
         jq = {'kind': 'inner', 'spelling': 'join', 'lhs': [k], 'rhs': [0]}
-        jtxt = ' join b on a%d == b1' % (k + 1)
+        jtxt = ' join b on %s == %s' % (name_of('a', k, hdr), name_of('b', 0, hdrB))      # keys by position or by name (also over zero-row tables)
     fail = r.random() < 0.08
     if fail:
         items.append(('expr', ('int', ('fld', 'a', 0)))); texts.append('int(a1 + "x")'); hitems.append('(7)')
